@@ -83,10 +83,21 @@ class Subject:
             new_sel = {g: None for g in self.mi.oneofs}
             for num, v in op["members"]:
                 kw[self.names[num]] = self.py(num, v)
-            order = [f.number for f in self.mi.fields]
-            for num, v in sorted(op["members"], key=lambda x: order.index(x[0])):
-                new_sel[self.group_of[num]] = num
+            # several members of one group in one constructor call: "set last" is not defined by the property
+            # (declaration order today); the model accepts any ONE of the given members, decided by observation
+            given = {}
+            for num, v in op["members"]:
+                given.setdefault(self.group_of[num], []).append(num)
             self.m = self.cls(**kw)
+            import betterproto
+
+            for g, nums in given.items():
+                if len(nums) == 1:
+                    new_sel[g] = nums[0]
+                else:
+                    name = betterproto.which_one_of(self.m, g)[0]
+                    pick = [n for n in nums if self.names[n] == name]
+                    new_sel[g] = pick[0] if pick else nums[-1]
             self.sel = new_sel
         elif k == "set":
             setattr(self.m, self.names[op["num"]], self.py(op["num"], op["val"]))
